@@ -518,7 +518,7 @@ pub(crate) fn post_step<T: Tables, const NB: usize>(st: Step<NB>, r: StateResult
             assert!(T::is_succ(sid, nid), "[C15] the successor is one the state's DSL definition lists");
             let (nreq, nk, _) = T::info(nid);
             let eff = eff_req(&l, nreq);
-            assert!(inv(&l, eff, nk, T::dist(nid), n), "[C01,C14,C16] the successor state's representation invariant holds");
+            assert!(inv(&l, eff, nk, T::dist(nid), n), "[C01,C14,C15,C16] the successor state's representation invariant holds");
             if gate && T::is_tag_continuation(nid) {
                 match tag_hash(&l) {
                     Some((h, true)) => assert!(h == pre.last_hash, "[C03] only the appropriate end tag continues as a tag"),
